@@ -412,6 +412,13 @@ class C14(Property):
         if ast is not None and cm.ast_wf(ast):
             if cm.print_path(ast) != path:
                 fails.append({"clause": "harness-printing", "expected": cm.print_path(ast), "observed": path})
+            # "in sequence order": ascending slices on a Canon path select strictly increasing elements
+            # (node ids are preorder numbers, so document order = increasing id)
+            ascending = all(not (st["t"] == "slice" and "c" in st and (st["c"]["v"] or 1) < 0) for st in ast["steps"])
+            if cm.canon_ast(ast) and ascending and "list" in as_list:
+                ids = as_list["list"]
+                if any(not isinstance(x, int) for x in ids) or any(a >= b for a, b in zip(ids, ids[1:])):
+                    fails.append({"clause": "sequence-order", "expected": "strictly increasing preorder ids", "observed": ids})
             want = _denote_obs(ast, start, label, single, strict)
             lax_several = single and not strict and "one" in want and len(
                 _denote_obs(ast, start, label, False, strict).get("list", [])) > 1
@@ -512,10 +519,19 @@ class C14(Property):
 C14.rule = (
     "random schemas over Dict/List(nested)/DateYYYYMMDD(set and unset)/Array/MultiValue/JoinedString/String with hostile "
     "names (path punctuation, digits-only, non-ASCII, backslashes), instantiated with random list lengths; per tree 4-12 "
-    "(start element, path, strict, single) cases; 85% paths are printed from a random AST walked along the tree (names "
+    "(start element, path, strict, single) cases (start biased to containers); 85% paths are printed from a random AST walked along the tree (names "
     "mostly existing, index spellings `n`/`[n]`/`-n`/` n`/`0n`/`+n`, every slice form, `..`/`.` anywhere, leading/"
     "trailing slash, optional escapes), 75% of them with all `..` first (the theorem's Canon domain); 15% malformed "
     "strings over path punctuation for the tokenizer; non-trivial = AST of >= 2 steps, or >= 2 ops, or an error")
-C14.level_note = ""
+C14.level_note = (
+    "Proved in Lean for all trees/starts/strict/single: FIFO work list = depth-first reading (evalOps_denotes); find = "
+    "single-table of that reading of tokenize(path) for EVERY string (find_denotes, single_spec); compiled AST = spec "
+    "denotation incl. [-n], slice defaults (denOps_compile); tokenizer∘printer for the whole concrete grammar "
+    "(tokenize_print); end to end find(print p) = denote p on the Canon domain (find_print_denotes) and = denote "
+    "(cancel p) for every path (find_print_cancel, the exact content of KF-C14-a; C14_full_fails is the negation "
+    "witness); results strictly increasing in document order (find_sorted). Tied to the code by correspondence only: "
+    "scan = _tokenize_re.findall (regex text pinned; exhaustive over all strings of length <= 4/5 over `/.[]:-01a\\`), "
+    "pyInt = int() and pySlice = list slicing (exhaustive small scopes against Python itself), the element-tree "
+    "navigation (_index, parent, root, children) of the real classes.")
 
 PROP = C14()
